@@ -14,7 +14,7 @@ var hostPool = map[string][]string{
 	"pure":   {"1+2*3", "[1,2,3].sum()", "`a{1+1}b`", "7 > 3 ? 'y' : 'n'", "[1,2,3][1:]", "{'k': [1,2]}.k[0]", "func q9(n) { n * 2 }; q9(4)", "i9 = 0; while i9 < 3 { i9 = i9 + 1 }; i9", "abs(-3) + toInt('4')"},
 	"fails":  {"null + 1", "[1][5]", "'a' - 1", "1 % 'x'", "[1,2,3].nope()", "undefinedFn9(1)", "{'a':1}[[]] + 1", "-'s'", "3d0"},
 	"syntax": {"(2", "'abc", "[1, 2", "@@", "`a{1", "", ")", "{'a':", "\x1eab", "(1 +"},
-	"dice":   {"2d6+1", "4d6k3", "d20", "3d10kl1 * 2", "`{1d4}`", "[1d6, 1d6].sum()"},
+	"dice":   {"2d6+1", "4d6k3", "d20", "3d10kl1 * 2", "`{1d4}`", "[1d6, 1d6].sum()", "1 + 1 + 1 + 1 + 1 + 1 + 1 + 1 + 1 + 1 + 1 + 1 + 2d10 + 3d6k2", "x7 = 1 + 1 + 1 + 1 + 1 + 1 + 1 + 1; 8 * 8 * 8 + x7 + 4d6"},
 	"assign": {"x = 5; x", "x = 2 + 3; x", "x = [1,2].len(); x"},
 	"reads":  {"x + 1", "x * 2 - 1", "1 - x"},
 }
